@@ -3,7 +3,7 @@ import FiberModel.C05.Spec
 import FiberModel.C05.Facts
 /-
 Driver for C05. Case fields (after the id):
-  mode(0/1)  hist(`;`-separated requests or `-`)  probe  freshObs  fullDiff(`,`-list or `-`)  implObs
+  mode(0..4)  hist(`;`-separated requests or `-`)  probe  freshObs  fullDiff(`,`-list or `-`)  implObs
 request := method|path|query|flash|bad|script|host
   query: `hexk=hexv,…` or `-`; flash: `n` or `c:<hex>`; bad: 0|1|2; script: `op:hexarg:…,…` or `-`
 -/
@@ -62,7 +62,7 @@ def parseReq (s : String) : Option Req :=
     let sc ← if sc == "-" then some [] else (sc.splitOn ",").mapM parseAct
     -- domain guard: the modelled vocabulary
     if !([b "GET", b "POST", b "PUT", b "FOO"].contains m) then none
-    if (classify p).isNone || bad > 2 then none
+    if (classify p).isNone || bad > 3 then none
     if !(q.all fun kv => isWord kv.1 && isWord kv.2) then none
     -- `n` values the int binder sees: decimal words short enough not to overflow
     if !(q.all fun kv => kv.1 != b "n" || !allDigits kv.2 || kv.2.length ≤ 18) then none
@@ -103,7 +103,7 @@ def handleCase (f : List String) : Except String Verdict := do
   match f with
   | [id, mode, hist, probe, fresh, diff, impl] =>
     if impl == "invalid" then throw "outside-domain: request outside the structured vocabulary"
-    if mode != "0" && mode != "1" && mode != "2" then throw "outside-domain: mode"
+    if !(["0", "1", "2", "3", "4"].contains mode) then throw "outside-domain: mode"
     let hs ← if hist == "-" then pure [] else
       match (hist.splitOn ";").mapM parseReq with
       | some l => pure l
@@ -119,7 +119,8 @@ def handleCase (f : List String) : Except String Verdict := do
       | none => "noresponse"
     let served := hs.filter (·.bad == 0)
     let tags :=
-      [s!"hist{min hs.length 8}", if mode == "1" then "keepalive" else if mode == "2" then "concurrent-mix" else "conn-per-request"] ++
+      [s!"hist{min hs.length 8}", if mode == "1" then "keepalive" else if mode == "2" then "concurrent-mix"
+        else if mode == "3" then "custom-ctx" else if mode == "4" then "custom-ctx-keepalive" else "conn-per-request"] ++
       (if p.flash.isSome then ["probe-flash"] else []) ++
       (if served.any (·.flash.isSome) then ["hist-flash"] else []) ++
       (if hs.any (·.bad != 0) then ["hist-malformed"] else []) ++
